@@ -9,6 +9,7 @@
 -/
 import AgeModel.Extracted.RandUse
 import Proofs.GoTieMisc
+import Proofs.GoTieEncrypt
 namespace AgeModel
 namespace Tie.C06
 
@@ -68,6 +69,26 @@ theorem incNonce_tie (i : Nat) (last : Bool) (h : i + 1 < 2 ^ 88) :
 theorem setLastChunkFlag_tie (i : Nat) (last : Bool) :
     Extracted.stream_setLastChunkFlag (Stream.nonce i last) = .ok (Stream.nonce i true) :=
   GoTie.setLastChunkFlag_tie i last
+
+
+/-! ## age.Encrypt itself (DESIGN.md §5.3): the order of the random draws
+
+`age.Encrypt` is TRANSLATED from age.go on every run with `crypto/rand` as an EXPLICIT TAPE
+(`rand.Read(buf)` takes the next `len(buf)` bytes; the tape left over is handed back) and the
+recipients' wraps abstract but tape-threaded (`GoTie.EncryptEnv.hW`: each draws what the model's
+`wrapOne` draws). The translated `Encrypt` leaves the SAME tape as the model's `encryptInit`: 16
+bytes of file key first, every recipient's draws in list order, 16 bytes of payload nonce last,
+nothing else — `Props.C06.tape_linear`, `two_files_disjoint`, `x25519_secret_is_slice` are about the
+source text. -/
+
+theorem encrypt_tie (P : Prims) {S : AgeModel.Stream.DstSpec} {ρ δ ω : Type} (E : GoTie.EncryptEnv P S ρ δ ω)
+    (d : δ) (rs : List ρ) (tape : Bytes) :
+    ∃ res, Extracted.age_Encrypt E.nilW (GoTie.tapeRead E.eRand) E.W E.mac E.marshalF E.write E.newWriter E.key d rs tape = .ok res ∧
+      match encryptInit P tape (rs.map E.recOf) E.hdrSegs (E.absD d) with
+      | (.ok (w, k, t'), d2) =>
+          res.1 = E.mkW k res.2.2.1 ∧ res.2.1 = none ∧ E.absD res.2.2.1 = d2 ∧ res.2.2.2 = t' ∧ w = AgeModel.Stream.Writer.new d2
+      | (.error e, d2) => GoTie.encErrRel E.eRand e res.2.1 ∧ E.absD res.2.2.1 = d2 :=
+  GoTie.encrypt_tie P E d rs tape
 
 end Tie.C06
 end AgeModel
